@@ -385,50 +385,76 @@ def getPeer (l : List Cmd) : Except Err String :=
     | some none => .error .panic
     | none => .error (.missingPeer c0.name c0.seq)
 
-def seqsOf (l : List Cmd) : List Nat :=
-  let rec ins (k : Nat) : List Nat → List Nat
-    | [] => [k]
-    | x :: xs => if k < x then k :: x :: xs else if k == x then x :: xs else x :: ins k xs
-  l.foldl (fun acc c => ins c.seq acc) []
+/-- Insert into an ascending list without repetition. -/
+def insSeq (k : Nat) : List Nat → List Nat
+  | [] => [k]
+  | x :: xs => if k < x then k :: x :: xs else if k == x then x :: xs else x :: insSeq k xs
 
-/-- A call `f(aSeqL, bSeqL)` of `matchCryptoMap`: positions in `al` and the commands of `b`. -/
+/-- The sequence numbers of a crypto map, ascending, each once (`slices.Sorted(maps.Keys(mapBySeq(l)))`). -/
+def seqsOf (l : List Cmd) : List Nat := l.foldl (fun acc c => insSeq c.seq acc) []
+
+/-- A call `f(aSeqL, bSeqL)` of `matchCryptoMap`: positions in `al` and the commands of `b`;
+`bSeq` (ghost) = the sequence number the commands of `b` had in the file. -/
 structure Call where
   aIdx : List Nat
   bl   : List Cmd
+  bSeq : Option Nat := none
   deriving Repr
 
+/-- Next free number: counting up (static peer) or down (dynamic) from `s`, at most `fuel` candidates. -/
 def freeSeq (used : List Nat) (static : Bool) : Nat → Nat → Nat
   | 0, s => s
   | fuel + 1, s => if used.contains s then freeSeq used static fuel (if static then s + 1 else s - 1) else s
 
-/-- `matchCryptoMap` as the list of its callback calls. -/
-def matchCryptoMap (al bl : List Cmd) : Except Err (List Call) := do
-  let aSeqs := seqsOf al
-  let bSeqs := seqsOf bl
-  let grpB := fun (s : Nat) => bl.filter (fun c => c.seq == s)
-  let idxA := fun (s : Nat) => ((List.range al.length).zip al).filterMap (fun p => if p.2.seq == s then some p.1 else none)
-  -- mapPeerToSeq over b: first sequence number of every peer
-  let bPeers ← bSeqs.foldlM (fun (acc : List (String × Nat)) s => do
-      let p ← getPeer (grpB s)
-      pure (if acc.any (fun q => q.1 == p) then acc else acc ++ [(p, s)])) []
-  let (calls, rest) ← aSeqs.foldlM (fun (acc : List Call × List Nat) s => do
-      let p ← getPeer (al.filter (fun c => c.seq == s))
-      match bPeers.find? (fun q => q.1 == p) with
-      | some q => pure (acc.1 ++ [{ aIdx := idxA s, bl := if acc.2.contains q.2 then grpB q.2 else [] }],
-                        acc.2.filter (· != q.2))
-      | none => pure (acc.1 ++ [{ aIdx := idxA s, bl := [] }], acc.2)) ([], bSeqs)
+def grp (l : List Cmd) (s : Nat) : List Cmd := l.filter (fun c => c.seq == s)
+
+/-- Positions (counted from `k`) of the commands with sequence number `s`. -/
+def idxFrom (s : Nat) : Nat → List Cmd → List Nat
+  | _, [] => []
+  | k, c :: cs => (if c.seq == s then [k] else []) ++ idxFrom s (k + 1) cs
+
+def peerD (l : List Cmd) : String := match getPeer l with | .ok p => p | .error _ => ""
+
+/-- The first entry without peer: entries of `b` in ascending order (`mapPeerToSeq`), then those of `a`. -/
+def firstPeerErr (al bl : List Cmd) : Option Err :=
+  (((seqsOf bl).map (grp bl)) ++ ((seqsOf al).map (grp al))).findSome? (fun g =>
+    match getPeer g with | .error e => some e | .ok _ => none)
+
+/-- `mapPeerToSeq`: first sequence number of every peer. -/
+def firstSeqs (bl : List Cmd) : List (String × Nat) :=
+  (seqsOf bl).foldl (fun acc s =>
+    let p := peerD (grp bl s)
+    if acc.any (fun q => q.1 == p) then acc else acc ++ [(p, s)]) []
+
+/-- First loop: one call per entry of `a` (ascending); `acc.2` = entries of `b` not yet consumed. -/
+def matchStep (al bl : List Cmd) (bPeers : List (String × Nat)) (acc : List Call × List Nat) (s : Nat) :
+    List Call × List Nat :=
+  match bPeers.find? (fun q => q.1 == peerD (grp al s)) with
+  | some q =>
+    if acc.2.contains q.2 then
+      (acc.1 ++ [{ aIdx := idxFrom s 0 al, bl := grp bl q.2, bSeq := some q.2 }], acc.2.filter (· != q.2))
+    else (acc.1 ++ [{ aIdx := idxFrom s 0 al, bl := [] }], acc.2)
+  | none => (acc.1 ++ [{ aIdx := idxFrom s 0 al, bl := [] }], acc.2)
+
+def matchLoop (al bl : List Cmd) : List Call × List Nat :=
+  (seqsOf al).foldl (matchStep al bl (firstSeqs bl)) ([], seqsOf bl)
+
+/-- Second loop: the remaining entries of `b` get fresh numbers and the name of `a`'s map. -/
+def freshStep (al bl : List Cmd) (acc : List Call × Nat × Nat) (s : Nat) : List Call × Nat × Nat :=
   let nameOf := fun (c : Cmd) => match al.head? with | some a0 => { c with name := a0.name } | none => c
-  let (calls, _, _) ← rest.foldlM (fun (acc : List Call × Nat × Nat) s => do
-      let p ← getPeer (grpB s)
-      let (calls, st, dy) := acc
-      if startsWith p "peer " then
-        let q := freeSeq aSeqs true 70000 st
-        pure (calls ++ [{ aIdx := [], bl := (grpB s).map (fun c => nameOf { c with seq := q }) }], q + 1, dy)
-      else
-        let q := freeSeq aSeqs false 70000 dy
-        pure (calls ++ [{ aIdx := [], bl := (grpB s).map (fun c => nameOf { c with seq := q }) }], st, q - 1))
-    (calls, 1, 65535)
-  pure calls
+  let static := startsWith (peerD (grp bl s)) "peer "
+  let q := freeSeq (seqsOf al) static 70000 (if static then acc.2.1 else acc.2.2)
+  let call : Call := { aIdx := [], bl := (grp bl s).map (fun c => nameOf { c with seq := q }), bSeq := some s }
+  if static then (acc.1 ++ [call], q + 1, acc.2.2) else (acc.1 ++ [call], acc.2.1, q - 1)
+
+def matchCalls (al bl : List Cmd) : List Call :=
+  ((matchLoop al bl).2.foldl (freshStep al bl) ((matchLoop al bl).1, 1, 65535)).1
+
+/-- `matchCryptoMap` as the list of its callback calls. -/
+def matchCryptoMap (al bl : List Cmd) : Except Err (List Call) :=
+  match firstPeerErr al bl with
+  | some e => .error e
+  | none => .ok (matchCalls al bl)
 
 def cryptoMapStep (rec : Rec) (b : Tbl) (raw : Bool) (acc : St × List Cmd) (c : Call) : Except Err (St × List Cmd) :=
   let (st, al) := acc
